@@ -14,20 +14,25 @@ package requestcontext
 // ---- C09: each forwarded header overrides exactly its component; absent ones fall back to the
 // actual request (the middleware above removes them all for untrusted peers) ----
 
+// receivedPath(path, rawPath): the path of a URL as received - see specs/requestcontext.spec for the
+// (trusted, bounded-checked) specification of the helper escapedPath that computes it
 //@ func extractMethod
 //@   props C09
 //@   ensures headerGet(old(req.Header), "X-Forwarded-Method", hver) != "" ==> ret0 == headerGet(old(req.Header), "X-Forwarded-Method", hver)
 //@   ensures headerGet(old(req.Header), "X-Forwarded-Method", hver) == "" ==> ret0 == old(req.Method)
 
 //@ func extractURL
-//@   props C09
+//@   props C09 C08
 //@   ensures ret0 != nil && hver == old(hver)
 //@   ensures headerGet(old(req.Header), "X-Forwarded-Proto", hver) != "" ==> ret0.Scheme == headerGet(old(req.Header), "X-Forwarded-Proto", hver)
 //@   ensures headerGet(old(req.Header), "X-Forwarded-Proto", hver) == "" ==> ret0.Scheme == ite(old(req.TLS) == nil, "http", "https")
 //@   ensures headerGet(old(req.Header), "X-Forwarded-Host", hver) != "" ==> ret0.Host == headerGet(old(req.Header), "X-Forwarded-Host", hver)
 //@   ensures headerGet(old(req.Header), "X-Forwarded-Host", hver) == "" ==> ret0.Host == old(req.Host)
-//@   ensures headerGet(old(req.Header), "X-Forwarded-Uri", hver) == "" ==> ret0.RawPath == escapedPath(old(*req.URL)) && ret0.RawQuery == old(req.URL.RawQuery)
+//@   ensures headerGet(old(req.Header), "X-Forwarded-Uri", hver) == "" ==> ret0.RawPath == receivedPath(old(req.URL.Path), old(req.URL.RawPath)) && ret0.RawQuery == old(req.URL.RawQuery)
 //@   ensures ret0.Path == pathUnescape(ret0.RawPath)
+// C08: "a percent-encoded slash ... never accepted": an encoded slash received in the request line
+// is still there in the raw path the rules see
+//@   ensures headerGet(old(req.Header), "X-Forwarded-Uri", hver) == "" && hasEncodedSlash(old(req.URL.RawPath)) ==> hasEncodedSlash(ret0.RawPath)
 //@   ensures ret0.User == nil && ret0.Fragment == "" && ret0.Opaque == ""
 
 // "the client address list come[s] only from the actual connection": without Forwarded and
